@@ -378,6 +378,49 @@ func (m *fieldMachine) vectors(pool []*big.Int, lens []int) {
 		}
 		m.batchInvert(bi)
 	}
+	// structured vectors whose sum / inner product lands on 0 or just above it (the reductions of the
+	// accumulating kernels are only exercised near their boundaries by such inputs)
+	q := m.f.Q
+	for _, n := range []int{16, 113, 114, 128, 200, 257} {
+		one := m.f.ToMont(big.NewInt(1))
+		minusOne := m.f.ToMont(new(big.Int).Sub(q, big.NewInt(1)))
+		x := r.Below(q)
+		negx := new(big.Int).Sub(q, x)
+		negx.Mod(negx, q)
+		alt := make([]*big.Int, n)  // x, -x, x, -x ... (sum 0 or x)
+		pm1 := make([]*big.Int, n)  // 1, -1, ...
+		comp := make([]*big.Int, n) // random, last = -(sum of the others) in value
+		allMax := make([]*big.Int, n)
+		acc := new(big.Int)
+		for i := 0; i < n; i++ {
+			if i%2 == 0 {
+				alt[i], pm1[i] = x, one
+			} else {
+				alt[i], pm1[i] = negx, minusOne
+			}
+			allMax[i] = new(big.Int).Sub(q, big.NewInt(1))
+			if i < n-1 {
+				v := r.Below(q)
+				comp[i] = m.f.ToMont(v)
+				acc.Add(acc, v)
+			}
+		}
+		last := new(big.Int).Mod(new(big.Int).Neg(acc), q)
+		comp[n-1] = m.f.ToMont(last)
+		ones := make([]*big.Int, n)
+		for i := range ones {
+			ones[i] = one
+		}
+		for _, v := range [][]*big.Int{alt, pm1, comp, allMax} {
+			m.vecOp("Sum", v, nil, 0, r.Intn(4), nil)
+			m.vecOp("InnerProduct", v, ones, 0, 0, nil)
+			m.vecOp("InnerProduct", v, v, 0, 0, nil)
+		}
+		m.vecOp("Add", alt, pm1, n, 0, nil)
+		m.vecOp("Sub", comp, comp, n, 0, nil)
+		m.vecOp("Mul", allMax, allMax, n, 0, nil)
+		m.vecOp("ScalarMul", allMax, nil, n, 0, minusOne)
+	}
 	// length mismatches: must panic in every configuration
 	for _, c := range [][3]int{{0, 1, 0}, {1, 0, 1}, {2, 2, 1}, {3, 2, 3}, {0, 0, 1}, {17, 16, 17}, {16, 16, 0}, {1, 1, 0}} {
 		a, b := pick(c[0]), pick(c[1])
